@@ -97,8 +97,16 @@ func (t *intScalar) CoerceOut(v interface{}) (interface{}, error) {
 		// remains nil
 	case float32:
 		v = int32(tv)
+		if f := float64(tv); f != f || f <= -2147483649 || 2147483648 <= f {
+			v = nil
+			err = newCoerceErr(tv, "Int")
+		}
 	case float64:
 		v = int32(tv)
+		if f := tv; f != f || f <= -2147483649 || 2147483648 <= f {
+			v = nil
+			err = newCoerceErr(tv, "Int")
+		}
 	case int:
 		v = int32(tv)
 		if int(int32(tv)) != tv {
